@@ -3,9 +3,16 @@ package c19
 
 import (
 	"bytes"
+	"crypto/ecdsa"
+	"crypto/elliptic"
+	crand "crypto/rand"
+	"crypto/tls"
+	"crypto/x509"
+	"crypto/x509/pkix"
 	"encoding/hex"
 	"fmt"
 	"io"
+	"math/big"
 	"net"
 	"net/http"
 	"os"
@@ -242,7 +249,29 @@ type proxyProc struct {
 	exited      chan struct{}
 }
 
-var proxy *proxyProc
+var proxy *proxyProc    // plain TCP
+var proxyTLS *proxyProc // started with -s: TLS towards the client and towards the upstream server
+
+var upstreamTLS *tls.Config
+
+// upstreamConfig: a self-signed certificate for the harness's upstream server (the proxy does not verify it).
+func upstreamConfig() *tls.Config {
+	if upstreamTLS != nil {
+		return upstreamTLS
+	}
+	key, err := ecdsa.GenerateKey(elliptic.P256(), crand.Reader)
+	if err != nil {
+		stats.HarnessBug("key: %v", err)
+	}
+	tmpl := &x509.Certificate{SerialNumber: big.NewInt(1), Subject: pkix.Name{CommonName: "upstream"}, NotBefore: time.Now().Add(-time.Hour),
+		NotAfter: time.Now().Add(240 * time.Hour), KeyUsage: x509.KeyUsageDigitalSignature, ExtKeyUsage: []x509.ExtKeyUsage{x509.ExtKeyUsageServerAuth}}
+	der, err := x509.CreateCertificate(crand.Reader, tmpl, tmpl, &key.PublicKey, key)
+	if err != nil {
+		stats.HarnessBug("certificate: %v", err)
+	}
+	upstreamTLS = &tls.Config{Certificates: []tls.Certificate{{Certificate: [][]byte{der}, PrivateKey: key}}}
+	return upstreamTLS
+}
 
 func freePort() int {
 	l, err := net.Listen("tcp", "127.0.0.1:0")
@@ -253,7 +282,7 @@ func freePort() int {
 	return l.Addr().(*net.TCPAddr).Port
 }
 
-func startProxy() (*proxyProc, error) {
+func startProxy(isTLS bool) (*proxyProc, error) {
 	bin := os.Getenv("VERIF_APP_PROXY")
 	if bin == "" {
 		return nil, fmt.Errorf("VERIF_APP_PROXY not set")
@@ -269,11 +298,15 @@ func startProxy() (*proxyProc, error) {
 			return nil, err
 		}
 		pp, cp := freePort(), freePort()
-		cfg := fmt.Sprintf(`{"remote_host": %q, "proxy_host": "127.0.0.1", "proxy_port": %d, "control_host": "127.0.0.1", "control_port": %d, "record_messages": true, "message_log_directory": %q}`,
+		cfg := fmt.Sprintf(`{"remote_host": %q, "proxy_host": "127.0.0.1", "proxy_port": %d, "control_host": "127.0.0.1", "control_port": %d, "record_messages": true, "message_log_directory": %q,
+ "tls": {"country": ["GB"], "org": ["verif"], "common_name": "localhost"}}`,
 			up.Addr().String(), pp, cp, filepath.Join(dir, "logs"))
 		cfgPath := filepath.Join(dir, "proxy.json")
 		os.WriteFile(cfgPath, []byte(cfg), 0o644)
 		cmd := exec.Command(bin, "-c", cfgPath, "-q")
+		if isTLS {
+			cmd = exec.Command(bin, "-c", cfgPath, "-q", "-s")
+		}
 		cmd.Dir = dir
 		p := &proxyProc{cmd: cmd, upstream: up, proxyAddr: fmt.Sprintf("127.0.0.1:%d", pp), controlAddr: fmt.Sprintf("127.0.0.1:%d", cp), dir: dir, exited: make(chan struct{})}
 		if err := cmd.Start(); err != nil {
@@ -334,6 +367,10 @@ func stopProxy() {
 		proxy.stop()
 		proxy = nil
 	}
+	if proxyTLS != nil {
+		proxyTLS.stop()
+		proxyTLS = nil
+	}
 }
 
 type Chunked struct {
@@ -363,7 +400,18 @@ type RelayCase struct {
 	// starts reading ServerLagMs later; every byte the proxy accepted must still reach the server.
 	EarlyClose  bool `json:"client_closes_early"`
 	ServerLagMs int  `json:"server_lag_ms"`
+	// TLS: the session runs through a proxy started with -s (TLS on both legs); ClientTLS12: the client
+	// offers TLS 1.2 at most (else 1.3).
+	TLS         bool `json:"tls"`
+	ClientTLS12 bool `json:"client_tls12"`
+	// ServerHalfClose: the upstream server sends its data and then closes its sending side only (it keeps
+	// receiving, as a caster does after its reply); the client sends its data ClientLagMs after it has
+	// received everything.  Every client byte must still reach the server.
+	ServerHalfClose bool `json:"server_half_close"`
+	ClientLagMs     int  `json:"client_lag_ms"`
 }
+
+type halfCloser interface{ CloseWrite() error }
 
 func send(conn net.Conn, c Chunked) {
 	data := c.Bytes()
@@ -410,16 +458,23 @@ func recvN(conn net.Conn, n int, d time.Duration) []byte {
 }
 
 func checkRelay(c RelayCase, o *stats.Obs) error {
-	if proxy == nil || !proxy.alive() {
-		stopProxy()
-		p, err := startProxy()
+	pp := &proxy
+	if c.TLS {
+		pp = &proxyTLS
+	}
+	if *pp == nil || !(*pp).alive() {
+		if *pp != nil {
+			(*pp).stop()
+			*pp = nil
+		}
+		p, err := startProxy(c.TLS)
 		if err != nil {
 			o.Skip = true
 			return nil
 		}
-		proxy = p
+		*pp = p
 	}
-	p := proxy
+	p := *pp
 	c2s, s2c := c.C2S.Bytes(), c.S2C.Bytes()
 	client, err := net.DialTimeout("tcp", p.proxyAddr, 5*time.Second)
 	if err != nil {
@@ -442,6 +497,41 @@ func checkRelay(c RelayCase, o *stats.Obs) error {
 		return fmt.Errorf("proxy did not connect to the upstream server within 10 s: %v", err)
 	}
 	defer server.Close()
+	if c.TLS {
+		// handshakes: proxy -> upstream first (the proxy dials it as soon as the client's TCP connection is
+		// accepted), then client -> proxy
+		st := tls.Server(server, upstreamConfig())
+		st.SetDeadline(time.Now().Add(10 * time.Second))
+		if err := st.Handshake(); err != nil {
+			if !p.alive() {
+				o.Key = "proxy-died"
+				return fmt.Errorf("proxy process died during the TLS handshake with the upstream server")
+			}
+			o.Key = "tls-handshake"
+			return fmt.Errorf("TLS handshake between the proxy and the upstream server failed: %v", err)
+		}
+		st.SetDeadline(time.Time{})
+		conf := &tls.Config{InsecureSkipVerify: true, MinVersion: tls.VersionTLS12}
+		if c.ClientTLS12 {
+			conf.MaxVersion = tls.VersionTLS12
+		}
+		ct := tls.Client(client, conf)
+		ct.SetDeadline(time.Now().Add(10 * time.Second))
+		if err := ct.Handshake(); err != nil {
+			if !p.alive() {
+				o.Key = "proxy-died"
+				return fmt.Errorf("proxy process died during the TLS handshake with the client")
+			}
+			o.Key = "tls-handshake"
+			return fmt.Errorf("TLS handshake between the client and the proxy failed: %v", err)
+		}
+		ct.SetDeadline(time.Time{})
+		server, client = st, ct
+		o.Class("tls")
+		if c.ClientTLS12 {
+			o.Class("tls/client-1.2")
+		}
+	}
 	var gotUp, gotDown []byte
 	var wg sync.WaitGroup
 	stopPoll := make(chan struct{})
@@ -484,6 +574,36 @@ func checkRelay(c RelayCase, o *stats.Obs) error {
 		}
 		o.NonTrivial = len(c2s) > 0
 		o.Class("client-hangs-up-early")
+		return nil
+	}
+	if c.ServerHalfClose {
+		go func() {
+			send(server, c.S2C)
+			if hc, ok := server.(halfCloser); ok {
+				hc.CloseWrite()
+			}
+		}()
+		gotDown = recvN(client, len(s2c), 10*time.Second)
+		time.Sleep(time.Duration(c.ClientLagMs) * time.Millisecond)
+		go send(client, c.C2S)
+		gotUp = recvN(server, len(c2s), 10*time.Second)
+		close(stopPoll)
+		<-pollDone
+		p.c2sHistory = append(p.c2sHistory, c2s...)
+		if !bytes.Equal(gotDown, s2c) {
+			o.Key = "server-to-client"
+			return fmt.Errorf("client received different bytes than the server sent before closing its sending side: %s", appsup.Diff(gotDown, s2c))
+		}
+		if !bytes.Equal(gotUp, c2s) {
+			o.Key = "client-to-server-after-server-half-close"
+			return fmt.Errorf("the upstream server finished sending (closed its sending side only) and kept receiving; the client then sent %d bytes, the server received different bytes: %s", len(c2s), appsup.Diff(gotUp, c2s))
+		}
+		if !p.alive() {
+			o.Key = "proxy-died"
+			return fmt.Errorf("proxy process died after the server's half-close")
+		}
+		o.NonTrivial = len(c2s) > 0
+		o.Class("server-half-close")
 		return nil
 	}
 	wg.Add(4)
@@ -593,8 +713,22 @@ func genChunked(t *rapid.T, label string) Chunked {
 }
 
 func genRelay(t *rapid.T) RelayCase {
-	return RelayCase{C2S: genChunked(t, "c2s"), S2C: genChunked(t, "s2c"), Report: rapid.IntRange(0, 2).Draw(t, "report") == 0,
+	c := RelayCase{C2S: genChunked(t, "c2s"), S2C: genChunked(t, "s2c"), Report: rapid.IntRange(0, 2).Draw(t, "report") == 0,
 		Poll: rapid.IntRange(0, 2).Draw(t, "poll") == 0}
+	if rapid.IntRange(0, 3).Draw(t, "tls") == 0 {
+		c.TLS = true
+		c.ClientTLS12 = rapid.Bool().Draw(t, "clientTLS12")
+	}
+	switch rapid.IntRange(0, 7).Draw(t, "ending") {
+	case 0:
+		c.ServerHalfClose = true
+		c.ClientLagMs = rapid.SampledFrom([]int{0, 20, 200}).Draw(t, "clientLag")
+	case 1:
+		// the client hangs up right after its last write
+		c.EarlyClose = true
+		c.ServerLagMs = rapid.SampledFrom([]int{0, 0, 50}).Draw(t, "serverLag")
+	}
+	return c
 }
 
 var propRelay = stats.Prop(R, "relay", genRelay, checkRelay)
@@ -624,6 +758,10 @@ func TestLongIdle(t *testing.T) { rapid.Check(t, propIdle) }
 // Early hang-up: a large upload, the client closes at once, the server is slow to read.
 func genHangup(t *rapid.T) RelayCase {
 	c := RelayCase{EarlyClose: true, ServerLagMs: rapid.SampledFrom([]int{0, 300, 1500}).Draw(t, "serverLag")}
+	if rapid.IntRange(0, 2).Draw(t, "tls") == 0 {
+		c.TLS = true
+		c.ClientTLS12 = rapid.Bool().Draw(t, "clientTLS12")
+	}
 	total := rapid.SampledFrom([]int{1000, 70000, 200000, 512 * 1024, 1 << 20}).Draw(t, "uploadBytes")
 	var b []byte
 	for len(b) < total {
